@@ -425,7 +425,7 @@ func guardLowerBoundIt(it condIter, v ssa.Value) (int64, bool) {
 	var best int64
 	it(func(cond ssa.Value, taken bool, at *ssa.BasicBlock) {
 		bo, isB := cond.(*ssa.BinOp)
-		if !isB || bo.X != v {
+		if !isB || !(bo.X == v || sameArith(bo.X, v, 0)) {
 			return
 		}
 		k, isK := constInt64(bo.Y)
@@ -613,6 +613,9 @@ func varIndexSites(fn *ssa.Function) []*varIndexSite {
 			s.Proven, s.Pair = true, true
 			s.Why = "key/value pair idiom: i runs over even positions below len and the slice holds key/value pairs"
 			return
+		}
+		if !up && !isSlice && halfLemma(blk, base, idx) {
+			up = true
 		}
 		s.LowOK, s.UpOK = lowOK, up
 		switch {
@@ -874,4 +877,112 @@ func tabledSameLen(fn *ssa.Function, base ssa.Value, v ssa.Value) bool {
 		return false
 	}
 	return (sameLenBase(base, pa) && sameLenBase(x, pb)) || (sameLenBase(base, pb) && sameLenBase(x, pa))
+}
+
+// sameArith: two SSA values that are the same arithmetic expression over the same
+// operands (go/ssa computes `length + start` anew for every mention).
+func sameArith(a, b ssa.Value, d int) bool {
+	if a == b {
+		return true
+	}
+	if d > 2 {
+		return false
+	}
+	x, ok1 := a.(*ssa.BinOp)
+	y, ok2 := b.(*ssa.BinOp)
+	if !ok1 || !ok2 || x.Op != y.Op {
+		return false
+	}
+	switch x.Op {
+	case token.ADD, token.SUB, token.MUL:
+	default:
+		return false
+	}
+	if sameArith(x.X, y.X, d+1) && sameArith(x.Y, y.Y, d+1) {
+		return true
+	}
+	if x.Op != token.SUB && sameArith(x.X, y.Y, d+1) && sameArith(x.Y, y.X, d+1) {
+		return true
+	}
+	return false
+}
+
+// halfLemma: base was made with L slots, the index is 2*i or 2*i+1, and i is
+// bounded by the length of a slice made with L/2 slots: 2*i+1 <= 2*(L/2 - 1) + 1 < L.
+func halfLemma(blk *ssa.BasicBlock, base ssa.Value, idx ssa.Value) bool {
+	fn := blk.Parent()
+	baseLens := madeWithLen(fn, base)
+	if len(baseLens) == 0 {
+		return false
+	}
+	// idx = i*2 (+ 0|1), in either operand order
+	var twice ssa.Value
+	switch x := idx.(type) {
+	case *ssa.BinOp:
+		switch x.Op {
+		case token.MUL:
+			twice = x
+		case token.ADD:
+			if k, ok := constInt64(x.Y); ok && (k == 0 || k == 1) {
+				twice = x.X
+			} else if k, ok := constInt64(x.X); ok && (k == 0 || k == 1) {
+				twice = x.Y
+			}
+		}
+	}
+	mul, ok := twice.(*ssa.BinOp)
+	if !ok || mul.Op != token.MUL {
+		return false
+	}
+	var i ssa.Value
+	if k, ok := constInt64(mul.Y); ok && k == 2 {
+		i = mul.X
+	} else if k, ok := constInt64(mul.X); ok && k == 2 {
+		i = mul.Y
+	}
+	if i == nil {
+		return false
+	}
+	// a slice K made with L/2 slots such that i < len(K) here
+	found := false
+	eachInstr(fn, func(ins ssa.Instruction) {
+		mk, ok := ins.(*ssa.MakeSlice)
+		if !ok || found {
+			return
+		}
+		q, ok := mk.Len.(*ssa.BinOp)
+		if !ok || q.Op != token.QUO {
+			return
+		}
+		if k, ok := constInt64(q.Y); !ok || k != 2 {
+			return
+		}
+		for _, L := range baseLens {
+			if !(sameLength(q.X, L) || sameArith(q.X, L, 0)) {
+				return
+			}
+		}
+		// K itself, or the local it is stored in
+		cands := []ssa.Value{mk}
+		if mk.Referrers() != nil {
+			for _, ref := range *mk.Referrers() {
+				if st, ok := ref.(*ssa.Store); ok && st.Val == ssa.Value(mk) {
+					if st.Addr.Referrers() != nil {
+						for _, r2 := range *st.Addr.Referrers() {
+							if u, ok := r2.(*ssa.UnOp); ok && u.Op == token.MUL {
+								cands = append(cands, u)
+							}
+						}
+					}
+				}
+			}
+		}
+		ii, ioff := idxPlus(i)
+		for _, k := range cands {
+			if upperBounded(blk, k, i, 0, false) || upperBounded(blk, k, ii, ioff, false) {
+				found = true
+			}
+		}
+	})
+	return found
 }
